@@ -31,8 +31,26 @@ pub fn edge_scalar(r: &mut ChaCha20Rng) -> Scalar {
     }
 }
 
+/// message tuples: independent edge entries, or random entries with a random subset zeroed
+/// (zero in the middle / zero tail patterns), or all-edge constants
 pub fn edge_vec(r: &mut ChaCha20Rng, n: usize) -> Vec<Scalar> {
-    (0..n).map(|_| edge_scalar(r)).collect()
+    match r.gen_range(0..4) {
+        0 => {
+            let mut v: Vec<Scalar> = (0..n).map(|_| rand_scalar(r)).collect();
+            for x in v.iter_mut() {
+                if r.gen_range(0..2) == 0 {
+                    *x = Scalar::zero();
+                }
+            }
+            v
+        }
+        1 => {
+            // zero tail after a random prefix
+            let k = r.gen_range(0..=n);
+            (0..n).map(|i| if i < k { rand_scalar(r) } else { Scalar::zero() }).collect()
+        }
+        _ => (0..n).map(|_| edge_scalar(r)).collect(),
+    }
 }
 
 pub fn rand_vec(r: &mut ChaCha20Rng, n: usize) -> Vec<Scalar> {
